@@ -21,7 +21,8 @@ CLAIM = dict(
           'each combine the right sub-blocks with the right fields, pass vorticity and tracers through and raise on an unknown method, on a partition of '
           '0…2L+1; the blockwise right-hand sides equal d − M₀₁t − M₀₂σ, t − M₁₀d, σ − M₂₀d; the shallow-water solve times (1 − η·L) normalises to the '
           'identity; the reversed equation negates the step; a traced step size is rejected before any numpy inverse. Does not decide that np.linalg.inv '
-          'inverts to rounding error, nor numerical equality of the strategies.'),
+          'inverts to rounding error, nor numerical equality of the strategies.'
+          ' Later additions: C03.8 operator tables are never updated in place and hand-rolled memo tables are keyed by everything their value is computed from (key completeness over parameter attribute paths, with a positive fixture).'),
     note=('Trusted: numpy.linalg.inv / eye / einsum / broadcast_to / concatenate semantics; matvec helpers are the einsums they name. Operators that are '
           'diagonal in (m, l) are treated as commuting scalars per wavenumber when coefficients are compared (λ, η, R); vertical matrices appear at most once '
           'per compared product.'),
